@@ -44,8 +44,8 @@ func verifyFunc(eng *Engine, fn *ssa.Function, con *Contract, opts SolveOpts) *F
 		}
 		aopts := opts
 		aopts.AllSolvers = false
-		aopts.SingleMs = 2000
-		aopts.QuickMs = 1500
+		aopts.SingleMs = 6000
+		aopts.QuickMs = 3000
 		solveAutoOnly(vc, autos, aopts)
 		dropped := false
 		for _, o := range autos {
